@@ -250,8 +250,21 @@ func randList(r *rand.Rand, gen func(*rand.Rand) string) []string {
 }
 
 func randEnvCfg(r *rand.Rand) envCfg {
-	return envCfg{da: r.Intn(2) == 0, ds: r.Intn(2) == 0, acc: randList(r, randDomain), rej: randList(r, randDomain),
+	e := envCfg{da: r.Intn(2) == 0, ds: r.Intn(2) == 0, acc: randList(r, randDomain), rej: randList(r, randDomain),
 		sto: randList(r, randDomain), dis: randList(r, randDomain), ro: randList(r, randPattern)}
+	// the list that the default switch makes irrelevant must really be ignored: put the same domain on both sides
+	if r.Intn(3) == 0 {
+		d := randDomain(r)
+		e.acc, e.rej = append(e.acc, d), append(e.rej, recase(r, d))
+	}
+	if r.Intn(3) == 0 {
+		d := randDomain(r)
+		e.sto, e.dis = append(e.sto, d), append(e.dis, recase(r, d))
+	}
+	if r.Intn(6) == 0 && len(e.ro) > 0 {
+		e.acc = append(e.acc, strings.NewReplacer("*", "sub.q", "?", "z").Replace(e.ro[0]))
+	}
+	return e
 }
 
 func containsFold(l []string, d string) bool {
